@@ -5,7 +5,7 @@
    final newline).  Holds for every nesting depth, number of bindings and items, identifiers and literal values. *)
 From Coq Require Import List Ascii String Bool Arith.
 Import ListNotations.
-From F0 Require Import F0s Specs P1 P2 P3g P5 P6 P7 P8 P9 P10 P11 Canon P12 P13 Canonize P14 P15 P16a P16 P17 P18 P19.
+From F0 Require Import F0s Specs P1 P2 P3g P5 P6 P7 P8 P9 P10 P11 Canon P12 P13 Canonize P14 P15 P16a P16 P17 P18 P19 P20.
 
 Theorem C02_identity : forall f, wf_file f -> canonical_file f = true -> roundtrip f = ftext f.
 Proof. exact C02_F0. Qed.
@@ -21,3 +21,11 @@ Print Assumptions C02_identity_checked.
 Example C02_nonvacuous : wf_fileb (canon_file demo) = true /\ canonical_file (canon_file demo) = true.
 Proof. vm_compute. split; reflexivity. Qed.
 Print Assumptions C02_nonvacuous.
+
+(* end to end over the external parser (hypotheses validated by the render correspondence on every run) *)
+Theorem C02_source : forall ts_parse : str -> option cfile,
+  (forall src f, ts_parse src = Some f -> ftext f = src) ->
+  (forall src f, ts_parse src = Some f -> wf_file f -> ts_parse (ftext (canon_file f)) = Some (canon_file f)) ->
+  forall src f, ts_parse src = Some f -> wf_file f -> canonical_file f = true -> roundtrip f = src.
+Proof. exact (fun ts Htiling _ => P20.C02_source ts Htiling). Qed.
+Print Assumptions C02_source.
